@@ -68,6 +68,14 @@ def gen_case(seed, i):
         dargs += ["--path", rng.choice(["/**", "/**/r1/**", "**/r2/*"])]
     elif r < 0.5:
         dargs += ["--keep-path", rng.choice(["/**/r1/**", "**/r2/*", "/**"])]
+    elif r < 0.6:
+        # a keep pattern and a drop pattern together, with a quota of 2 or 3 replicas
+        dargs += [rng.choice(["--name", "--path"]), rng.choice(["*", "a*", "*b*", "/**"])]
+        dargs += [rng.choice(["--keep-name", "--keep-path"]), rng.choice(["a*", "*.txt", "?", "/**/r1/**"])]
+        if n is None or n < 2:
+            dargs = [x for k2, x in enumerate(dargs) if not (x == "-n" or (k2 > 0 and dargs[k2 - 1] == "-n"))]
+            n = rng.choice([2, 3])
+            dargs += ["-n", str(n)]
     if rng.random() < 0.2:
         dargs += ["--no-lock"]
     return {"i": i, "cfg": cfg, "world": world.to_json(), "roots": roots, "gflags": gflags, "fmt": rng.choice(["default", "json"]),
